@@ -114,7 +114,7 @@ def apply_fault(lines: List[str], i: int, fault: str, variant: int) -> List[str]
         m = re.match(r'(\s*(?:"[^"]*"|\w+))', ln)
         new[i] = m.group(1)
     elif fault == 'unknown_setting':
-        new[i] = ln.replace('[', '[zzz, ', 1)
+        new[i] = ln.replace('[', ['[zzz, ', "[zzz: 'v', ", '[zzz: 1, '][variant % 3], 1)
     elif fault == 'unknown_index_type':
         new[i] = re.sub(r'\btype: \w+', 'type: zzz', ln, count=1)
     elif fault == 'bad_ref_operator':
@@ -172,9 +172,9 @@ def main(argv: List[str]) -> int:
             for fault in FAULTS:
                 if i >= len(lines) and fault not in ('illegal_char_line', 'stray_identifier_line', 'stray_comma_line'):
                     continue
-                for variant in range(3 if fault in ('illegal_char_line', 'bad_colour', 'bad_ref_operator', 'text_after_close_brace') else 1):
+                for variant in range(3 if fault in ('illegal_char_line', 'bad_colour', 'bad_ref_operator', 'text_after_close_brace', 'unknown_setting') else 1):
                     try:
-                        new = apply_fault(lines + ([''] if i >= len(lines) else []), i, fault, variant + seed)
+                        new = apply_fault(lines + ([''] if i >= len(lines) else []), i, fault, variant + (seed if fault != 'unknown_setting' else 0))
                     except (ValueError, AttributeError):
                         continue            # the line has nothing this fault could be applied to
                     if new == lines:
